@@ -12,6 +12,7 @@ import Mathlib.Tactic.IntervalCases
 import Compass.Proofs.SearchDiscipline
 import Compass.Proofs.RouteSums
 import Compass.Proofs.StateRefine
+import Compass.Proofs.Build
 
 namespace Compass
 namespace C03
@@ -570,6 +571,138 @@ example : StateRefine.Represents (StateRefine.toStateModel dijkstraConfig.feats)
     (StateRefine.toStateModel dijkstraConfig.feats).getTime [400, 2000] "time" .seconds = .ok 2000 :=
   ⟨StateRefine.represents_new _ (by decide), by decide +kernel, rfl, by decide +kernel,
     rfl, by decide +kernel, by decide +kernel⟩
+
+/-! ### The tables the sums run over are the files' rows
+
+The time of an edge is its length over *its* table speed, the delay of a turn is looked up from
+*these* two edges' headings and *this* class's delay: the loaders (`SpeedTraversalEngine::new`,
+`TurnDelayAccessModelBuilder::build`) must hand the search exactly what the files and the
+configuration say, entry `e` = row `e`, in the units given (or the defaults), or refuse. -/
+
+open Build
+
+/-- the loaded speed table is the file, line for line: as many entries as lines, entry `e` is the
+number on line `e`, and the units are the ones given, metres / seconds when left out -/
+theorem speed_table_is_the_file (rows : List (NumRow α)) (su : SpeedUnit) (duOpt : Option DistanceUnit)
+    (tuOpt : Option TimeUnit) (e : SpeedEngine α) (h : speedEngineNew (some rows) su duOpt tuOpt = .ok e) :
+    e.table.length = rows.length ∧ (∀ (i : Nat) (x : α), e.table[i]? = some x ↔ rows[i]? = some (NumRow.val x)) ∧
+      e.speedUnit = su ∧ e.timeUnit = tuOpt.getD baseTimeUnit ∧ e.distanceUnit = duOpt.getD baseDistanceUnit ∧
+      baseTimeUnit = .seconds ∧ baseDistanceUnit = .meters := by
+  obtain ⟨rows', hr, hrows, _, h1, h2, h3⟩ := (speedEngineNew_ok_iff _ su duOpt tuOpt e).1 h
+  injection hr with hr; subst hr
+  refine ⟨allSome_length hrows, fun i x => ⟨?_, ?_⟩, h1, h2, h3, rfl, rfl⟩
+  · intro hx
+    obtain ⟨r, hr, hp⟩ := (allSome_getElem? hrows i).2 x hx
+    rw [hr, ((parseSpeed_iff r x).1 hp).1]
+  · intro hx
+    obtain ⟨y, hp, hy⟩ := (allSome_getElem? hrows i).1 _ hx
+    have := ((parseSpeed_iff _ y).1 hp).1
+    injection this with this
+    rw [hy, this]
+
+/-- the model over the engine traverses edge `e` with the speed of line `e` (`TravModel.speed` over
+the loaded table) and estimates with the loaded maximum -/
+theorem speed_engine_model (e : SpeedEngine α) :
+    e.model = .speed e.speedUnit e.distanceUnit e.timeUnit e.maxSpeed e.table := rfl
+
+/-- the loaded headings are the file, record for record; a record is `arrival_heading` (an `i16`)
+and `departure_heading` (an `i16` or empty = same as the arrival heading) -/
+theorem headings_are_the_file (lines : List HeadLine) (hs : List (Int × Option Int))
+    (h : loadHeadings true lines = some hs) :
+    hs.length = lines.length ∧
+      ∀ (i : Nat) (a : Int) (d : Option Int), hs[i]? = some (a, d) ↔
+        ∃ dc : IntCell, lines[i]? = some (HeadLine.row (IntCell.int a) dc) ∧ (-32768 ≤ a ∧ a ≤ 32767) ∧
+          ((dc = IntCell.empty ∧ d = none) ∨
+            ∃ dv : Int, dc = IntCell.int dv ∧ (-32768 ≤ dv ∧ dv ≤ 32767) ∧ d = some dv) := by
+  unfold loadHeadings at h
+  split at h
+  · injection h with h; subst h
+    rename_i hl
+    have : lines = [] := by simpa using hl
+    subst this
+    simp
+  · simp only [Bool.not_true, Bool.false_eq_true, ↓reduceIte] at h
+    refine ⟨allSome_length h, fun i a d => ⟨?_, ?_⟩⟩
+    · intro hx
+      obtain ⟨l, hl, hp⟩ := (allSome_getElem? h i).2 _ hx
+      obtain ⟨dc, rfl, h2⟩ := (parseHeading_iff l a d).1 hp
+      exact ⟨dc, hl, h2⟩
+    · rintro ⟨dc, hl, h2⟩
+      obtain ⟨y, hp, hy⟩ := (allSome_getElem? h i).1 _ hl
+      rw [hy, ← hp, (parseHeading_iff _ a d).2 ⟨dc, rfl, h2⟩]
+
+/-- a headings file with a record that is short, has a cell that is no `i16` or an empty arrival
+heading is refused, and so is any file with records whose header does not name the two columns -/
+theorem headings_refused (lines : List HeadLine) :
+    ((∃ l ∈ lines, parseHeading l = none) → loadHeadings true lines = none) ∧
+    (lines ≠ [] → loadHeadings false lines = none) := by
+  constructor
+  · rintro ⟨l, hl, hp⟩
+    unfold loadHeadings
+    have hne : lines.isEmpty = false := by cases lines <;> simp_all
+    simp only [hne, Bool.false_eq_true, ↓reduceIte, Bool.not_true]
+    exact (allSome_none_iff _ _).2 ⟨l, hl, hp⟩
+  · intro hne
+    unfold loadHeadings
+    have : lines.isEmpty = false := by cases lines <;> simp_all
+    simp [this]
+
+/-- the delay table handed to the access model has one slot per turn class; the slot of a class
+holds the number the configuration gives under that class's name, and is empty exactly when the
+configuration has no entry of that name (then taking such a turn is an access error, not a free turn) -/
+theorem delay_table_is_the_configuration (dec : Nat → α) (kvs : List (String × Json)) (ds : List (Option α))
+    (h : delayTableOfJson dec kvs = some ds) :
+    ds.length = Turn.all.length ∧
+    ∀ t : Turn,
+      (∀ x, ds[t.toNat]? = some (some x) →
+        ∃ kv ∈ kvs, kv.1 = t.name ∧ ∃ b, kv.2.asF64Bits? = some b ∧ x = dec b) ∧
+      (ds[t.toNat]? = some none → ∀ kv ∈ kvs, kv.1 ≠ t.name) :=
+  delayTable_spec dec kvs ds h
+
+/-- what `TurnDelayAccessModelBuilder::build` hands over is the file's headings, the configured
+table and unit, and the configured (or default `time`) feature name — nothing else is accepted -/
+theorem turn_delay_builder_ok (dec : Nat → α) (cfg : Json) (headerOk : Bool) (file : Option (List HeadLine))
+    (b : TurnDelayBuilt α) (h : turnDelayBuild dec cfg headerOk file = .ok b) :
+    ∃ lines hs m tu ds, file = some lines ∧ loadHeadings headerOk lines = some hs ∧
+      cfg.get? "turn_delay_model" = some m ∧ turnDelayModelOfJson dec m = some (tu, ds) ∧
+      b.model = .turnDelay tu hs ds ∧
+      ((cfg.get? "time_feature_name" = none ∧ b.featureName = "time") ∨
+        cfg.get? "time_feature_name" = some (.str b.featureName)) := by
+  unfold turnDelayBuild at h
+  split at h
+  · cases h
+  · split at h
+    · cases h
+    · rename_i lines _
+      split at h
+      · cases h
+      · rename_i hs hhs
+        split at h
+        · cases h
+        · rename_i m hm
+          split at h
+          · cases h
+          · rename_i tu ds htd
+            split at h
+            · rename_i hn
+              injection h with h; subst h
+              exact ⟨lines, hs, m, tu, ds, rfl, hhs, hm, htd, rfl, Or.inl ⟨hn, rfl⟩⟩
+            · rename_i s hn
+              injection h with h; subst h
+              exact ⟨lines, hs, m, tu, ds, rfl, hhs, hm, htd, rfl, Or.inr hn⟩
+            · cases h
+
+/-! Non-vacuity: a two-line speed file in km/h with default units; a three-record headings file;
+a configuration with two delays. -/
+example : (speedEngineNew (some [.val (50 : ℚ), .val 30]) .kilometersPerHour none (some .minutes)).toOption.map
+    (fun e => (e.table, e.timeUnit, e.distanceUnit)) = some ([50, 30], .minutes, .meters) := by decide +kernel
+example : loadHeadings true [.row (.int 90) .empty, .row (.int 0) (.int 359), .row (.int (-10)) (.int 400)] =
+    some [(90, none), (0, some 359), (-10, some 400)] := by decide
+example : loadHeadings true [.row (.int 90) .empty, .row (.int 40000) .empty] = none := by decide
+example : loadHeadings true [.row (.int 90) .empty, .short] = none := by decide
+example : delayTableOfJson (fun b => (b : ℚ)) [("left", .num "3" 3), ("u_turn", .num "9.5" 19)] =
+    some [none, none, none, none, some 3, none, none, some 19] := by decide +kernel
+example : delayTableOfJson (fun b => (b : ℚ)) [("straight", .num "3" 3)] = none := by decide +kernel
 
 end C03
 end Compass
